@@ -477,6 +477,8 @@ def replay_finding(ctx, e):
     """True = the witness still reproduces on the real code (the method does not receive what the caller supplied /
     the accepted call is rejected), as recorded in the finding."""
     wit = e["witness"]
+    if "source" in wit:
+        return _replay_source(wit) and ("second" not in wit or _replay_source(wit["second"]))
     case = {"methods": wit["methods"], "calls": wit["calls"]}
     b = E.build(case)
     if b.error is not None:
@@ -485,6 +487,27 @@ def replay_finding(ctx, e):
     got = [out["kind"], out.get("no_method"), out["ran"]]
     fail = oracle(b, case, case["calls"][0], out, E.documented_strict(case))
     return fail is not None and json.loads(json.dumps(got)) == wit["expect_impl"]
+
+
+def _replay_source(wit):
+    """witness given as Python source (parameter names outside the harness's pool): the plain function accepts the call,
+    the ovld built from it does not behave like it"""
+    from .. import use_repo
+    use_repo()
+    from ovld import Ovld
+    ns = {}
+    exec(wit["source"], ns)
+    plain = ns["f"]
+    want = eval(wit["call"], {"f": plain})
+    ov = Ovld()
+    ov.register(plain)
+    try:
+        got = ["returned", repr(eval(wit["call"], {"f": ov.dispatch}))]
+        failed = got[1] != repr(want)
+    except Exception as ex:
+        got = [type(ex).__name__, str(ex)]
+        failed = True
+    return failed and got == wit["expect_impl"]
 
 
 # ------------------------------------------------------------------ witnesses (also the corpus)
